@@ -1533,7 +1533,7 @@ def run(chk: Check):
     chk.assumptions = ["grammars are well-formed in the sense of the property's quantifier (no falsy successful alternative, no "
                        "repetition of a nullable item, no left recursion hidden behind a nullable prefix — which is why the dead "
                        "NullableVisitor.visit_LookAhead handler, upstream pegen's as well, is not reported)",
-                       "sccutils' Tarjan implementation is trusted apart from GF10",
+                       "sccutils' component and cycle routines are evaluated on all 3-vertex graphs and a sample of 4-vertex ones (T6), not beyond",
                        "for-loops of the emitting methods are explored for 0, 1 and 2 iterations (their bodies are uniform per item)"]
     C = Classes()
     chk.units["classes"] = sorted(C.cls)
